@@ -164,6 +164,9 @@ package ocimem
 //@     result.0 == desc && desc.Size == len(r.repos[repoName].blobs[desc.Digest].data)
 //@   ensures[rejected-stores-nothing] result.1 != nil ==>
 //@     forall n string, d ociregistry.Digest :: in(r.repos, n) && in(r.repos[n].blobs, d) ==> old(in(r.repos, n) && in(r.repos[n].blobs, d))
+// (what is stored is everything the content reader yields, not a prefix of it:
+// content longer than the descriptor says is refused by the size check, never cut)
+//@   ensures[stores-all-the-content] result.1 == nil ==> string(r.repos[repoName].blobs[desc.Digest].data) == old(unread(content))
 
 //@ func (*Registry).MountBlob
 //@   atomic
